@@ -389,6 +389,8 @@ structure Cfg where
   memoized : List String            -- _pslinux.Process methods carrying @memoize_when_activated
   feMemoized : List String          -- psutil.Process methods carrying @memoize_when_activated
   hasRollup : Bool                  -- HAS_PROC_SMAPS_ROLLUP of the imported module
+  goneGuard : Bool                  -- _raise_if_pid_reused also raises NoSuchProcess when `self._gone` is set
+  childrenPopSelf : Bool            -- children() drops the caller's own pid from the ppid map
   deriving DecidableEq, Repr
 
 section
@@ -785,7 +787,11 @@ def isRunning (o : Obj) : M (Bool × Bool) := do
 def raiseIfPidReused (o : Obj) : M Unit := do
   -- `self._pid_reused or (not self.is_running() and self._pid_reused)`
   let (running, reused) ← isRunning cfg o
-  if !running && reused then throw (.nsp o.pid) else pure ()
+  if !running && reused then throw (.nsp o.pid)
+  -- `if self._gone: raise NoSuchProcess(self.pid, self._name)` (when the source has that test);
+  -- on a fresh object is_running() sets `_gone` exactly when it answers False
+  else if cfg.goneGuard && !running then throw (.nsp o.pid)
+  else pure ()
 
 def feMemoB (name : String) (get : Cache → Bool) (set : Cache → Cache) (p : Nat) (body : M Unit) : M Unit :=
   memoIf (cfg.feMemoized.contains name) (fun c => if get c then some () else none) (fun _ c => set c) p body
@@ -934,6 +940,8 @@ def childrenLoop (o : Obj) : List (Nat × Nat) → M (List Nat)
 def children (o : Obj) : M Val := do
   raiseIfPidReused cfg o
   let pm ← Plat.ppidMap cfg
+  -- `ppid_map.pop(self.pid, None)` (when the source has it): a process is never its own child
+  let pm := if cfg.childrenPopSelf then pm.filter (fun x => x.1 != o.pid) else pm
   let l ← childrenLoop cfg o pm
   pure (.procs l)
 
